@@ -21,7 +21,7 @@ RULE = ("BFS over histories of deliver-next-segment / write(k) / notifyFinish(k)
         "close' or HTTP/1.0; answer inside process() or "
         "later; segmentation whole / per request / mid-header / 2 bytes before each request end; eager-read limit "
         "default or 8 bytes). In every state: at most one request in progress and handed in arrival order with its "
-        "own body, the wire parses (h11) as the complete responses of the finished requests in order plus at most a "
+        "own body, with nothing in progress and no write-pause the channel is reading again, the wire parses (h11) as the complete responses of the finished requests in order plus at most a "
         "prefix of the current one, every notifyFinish Deferred fired exactly as the statement says. "
         "non-trivial = distinct canonical states with >=2 requests on the connection in which data was buffered "
         "behind an unfinished request, the transport was paused, or the connection was lost with a request pending")
@@ -33,7 +33,7 @@ ASSUMPTIONS = [
     "canonical state = configuration + harness bookkeeping + wire bytes + the channel's buffering/flow-control "
     "attributes (read defensively, used only to merge states, never for the verdict)",
 ]
-MIN = {"quick": {"states": 85000, "transitions": 120000, "nontrivial": 78000, "outcomes": 5},
+MIN = {"quick": {"states": 120000, "transitions": 170000, "nontrivial": 110000, "outcomes": 5},
        "thorough": {"states": 370000, "transitions": 540000, "nontrivial": 350000, "outcomes": 5}}
 
 KINDS = {
@@ -76,12 +76,14 @@ def configs(tier):
             for seg in SEGS:
                 if n == 1 and seg == "per-request":
                     continue
-                if tier == "quick" and n == 3 and seg in ("per-request", "near-end"):
-                    continue
                 for eager in (None, 8):
                     if eager == 8 and seg == "whole" and n == 1:
                         continue
-                    if tier == "quick" and eager == 8 and seg != "mid-header":
+                    if tier == "quick" and n == 3 and (seg == "near-end" or (seg == "per-request" and eager is None)):
+                        continue
+                    # eager 8 + per-request: a whole pipelined request is buffered behind the one in
+                    # progress and reading is paused (the read-ahead limit); + mid-header: a fragment is
+                    if tier == "quick" and eager == 8 and seg not in ("mid-header", "per-request"):
                         continue
                     if tier != "quick" and n >= 2 and eager == 8 and seg in ("whole", "near-end"):
                         continue
@@ -311,6 +313,13 @@ def invariant(st, hist):
             out.append(("pipelined-request-lost",
                         "%d complete requests delivered, nothing in progress, only %d handed to the application"
                         % (complete, len(st.handed))))
+        # ... nor made undeliverable: once nothing is in progress and the transport is not
+        # write-paused, the channel has resumed reading (it may keep reading paused only while a
+        # request is in progress or while the transport asked it to wait)
+        if st.t.producerState != "producing" and not closing_kind:
+            out.append(("reading-never-resumed",
+                        "nothing in progress, transport connected and not write-paused, but the channel left it "
+                        "paused: %d of %d segments can never be delivered" % (len(st.pieces) - st.piece_i, len(st.pieces))))
     # ---- the wire
     data = st.t.value()
     # (the request after the handed ones may already have drawn its "100 Continue": the channel
